@@ -9,7 +9,7 @@
 //!
 //! line:  CP <id> <family> <ntowers> <max_retry_s> <auto_retry_s> <max_interval_s> <nsteps> <step>* END
 //! step:  S <kind> <a> <b> RES <code> <ms> OBS <observation>
-//!   kind 1 REG t cls (register classes 0 good 1 badsig 2 same-expiry 3 garbage 4 api-error 5 no-more-slots 6 more-slots-same-expiry 20 down) | 2 MODE t cls (cls >= 100: register class cls-100) | 3 UP t 0/1 | 4 REV l 0 | 5 SETTLE 0 0 | 6 SLEEP ms 0 | 7 RETRY t 0
+//!   kind 1 REG t cls (register classes 0 good 1 badsig 2 same-expiry 3 garbage 4 api-error 5 no-more-slots 6 more-slots-same-expiry 7 receipt-of-another-user 20 down) | 2 MODE t cls (cls >= 100: register class cls-100) | 3 UP t 0/1 | 4 REV l 0 | 5 SETTLE 0 0 | 6 SLEEP ms 0 | 7 RETRY t 0
 //!        | 8 ABANDON t 0 | 9 KILL 0 0 | 10 START 0 0 | 11 REVNOWAIT l 0 | 12 WAKE 0 0
 //!   RES code: 0 ok / accepted, 1 error reply, 2 no answer within the timeout, 3 not applicable; ms = duration of the step
 //! observation (ints):
@@ -125,6 +125,7 @@ const R_GARBAGE: u64 = 3;
 const R_APIERR: u64 = 4;
 const R_NOTEXT_SLOTS: u64 = 5; // a valid receipt with a later expiry but no more slots than the client knows
 const R_NOTEXT_EXPIRY: u64 = 6; // a valid receipt with more slots but the expiry the client already knows
+const R_FOREIGN: u64 = 7; // a receipt the tower signed correctly, strictly extending, but for ANOTHER user (user_id of the reply = another key)
 const C_DOWN: u64 = 20; // not listening (connection refused) — never logged by the tower, used in scripts only
 
 struct LogEntry {
@@ -247,7 +248,7 @@ async fn handle_conn(mut s: tokio::net::TcpStream, st: Arc<Mutex<TowerState>>, i
             let user_id = serde_json::from_slice::<msgs::RegisterRequest>(body).ok().and_then(|r| UserId::from_slice(&r.user_id).ok());
             let mut vals = (0, 0, 0);
             reply = Some(match (cls, user_id) {
-                (R_GOOD, Some(u)) | (R_BADSIG, Some(u)) | (R_NOTEXT, Some(u)) | (R_NOTEXT_SLOTS, Some(u)) | (R_NOTEXT_EXPIRY, Some(u)) => {
+                (R_GOOD, Some(u)) | (R_BADSIG, Some(u)) | (R_NOTEXT, Some(u)) | (R_NOTEXT_SLOTS, Some(u)) | (R_NOTEXT_EXPIRY, Some(u)) | (R_FOREIGN, Some(u)) => {
                     if cls == R_GOOD {
                         g.gen += 1;
                     }
@@ -258,6 +259,14 @@ async fn handle_conn(mut s: tokio::net::TcpStream, st: Arc<Mutex<TowerState>>, i
                     if cls == R_NOTEXT_EXPIRY {
                         slots += 5;
                     }
+                    // the receipt is for the user of the request, except R_FOREIGN: another user's (valid, extending) subscription
+                    let u = if cls == R_FOREIGN {
+                        slots += 7;
+                        expiry += 70;
+                        UserId(key_of(100 + id).1)
+                    } else {
+                        u
+                    };
                     vals = (slots, start, expiry);
                     let mut r = RegistrationReceipt::new(u, slots, start, expiry);
                     r.sign(if cls == R_BADSIG { &other_sk } else { &tower_sk });
@@ -891,14 +900,14 @@ fn families() -> Vec<Scenario> {
     // 7: subscription error, renewal by the retrier, delivery
     v.push(fam(7, 1, o, vec![(K_REG, 0, R_GOOD), (K_MODE, 0, A_SUBERR), (K_REV, 0, 0), (K_MODE, 0, A_ACCEPT), (K_SETTLE, 0, 0), (K_REV, 1, 0), (K_SETTLE, 0, 0)]));
     // 8: subscription error and the renewal is refused in every way
-    for cls in [R_BADSIG, R_NOTEXT, R_NOTEXT_SLOTS, R_NOTEXT_EXPIRY, R_GARBAGE, R_APIERR] {
+    for cls in [R_BADSIG, R_NOTEXT, R_NOTEXT_SLOTS, R_NOTEXT_EXPIRY, R_GARBAGE, R_APIERR, R_FOREIGN] {
         v.push(fam(8, 1, o, vec![(K_REG, 0, R_GOOD), (K_MODE, 0, A_SUBERR), (K_REV, 0, 0), (K_SETTLE, 0, 0), (K_MODE, 0, cls + 100), (K_RETRY, 0, 0),
                                  (K_SETTLE, 0, 0), (K_RETRY, 0, 0), (K_SETTLE, 0, 0)]));
     }
     // 9: registration gate: every reply class for a first registration and for a renewal
     v.push(fam(9, 1, o, vec![(K_REG, 0, R_NOTEXT_EXPIRY), (K_REG, 0, R_NOTEXT_EXPIRY), (K_REV, 0, 0), (K_REG, 0, R_GOOD), (K_REG, 0, R_NOTEXT_EXPIRY), (K_REV, 1, 0), (K_SETTLE, 0, 0)]));
     v.push(fam(9, 1, o, vec![(K_REG, 0, R_NOTEXT_SLOTS), (K_REG, 0, R_NOTEXT_SLOTS), (K_REV, 0, 0), (K_REG, 0, R_NOTEXT), (K_REG, 0, R_GOOD), (K_REG, 0, R_NOTEXT_SLOTS), (K_SETTLE, 0, 0)]));
-    for cls in [R_BADSIG, R_GARBAGE, R_APIERR, C_DOWN] {
+    for cls in [R_BADSIG, R_GARBAGE, R_APIERR, C_DOWN, R_FOREIGN] {
         v.push(fam(9, 1, o, vec![(K_REG, 0, cls), (K_REV, 0, 0), (K_REG, 0, R_GOOD), (K_REG, 0, cls), (K_REG, 0, R_NOTEXT), (K_REV, 1, 0), (K_REG, 0, R_GOOD), (K_SETTLE, 0, 0)]));
     }
     // 10: every reply class on the retry path (pending first, then the tower comes back answering with the class)
@@ -953,6 +962,31 @@ fn families() -> Vec<Scenario> {
     for ms in [4300, 4700, 5000, 5300, 5700] {
         v.push(fam(21, 1, (2, 3, 1), vec![(K_REG, 0, R_GOOD), (K_UP, 0, 0), (K_REV, 0, 0), (K_SETTLE, 0, 0), (K_SLEEP, ms, 0), (K_ABANDON, 0, 0), (K_SLEEP, 1500, 0), (K_SETTLE, 0, 0)]));
     }
+    // 22: a receipt for another user on the retrier's re-registration, with the tower healthy otherwise: nothing of it may be stored,
+    //     the failure is permanent; a later renewal with a receipt of our own is accepted and everything is delivered
+    v.push(fam(22, 1, o, vec![(K_REG, 0, R_GOOD), (K_MODE, 0, A_SUBERR), (K_MODE, 0, 100 + R_FOREIGN), (K_REV, 0, 0), (K_SETTLE, 0, 0), (K_MODE, 0, A_ACCEPT), (K_REV, 1, 0), (K_SETTLE, 0, 0),
+                              (K_MODE, 0, 100 + R_GOOD), (K_RETRY, 0, 0), (K_SETTLE, 0, 0)]));
+    // 23: flagged on the RETRY path (the pending row stays), then a restart (kill / kill right after the flag): nothing may reach the
+    //     tower any more and it must still be shown misbehaving
+    v.push(fam(23, 1, o, vec![(K_REG, 0, R_GOOD), (K_UP, 0, 0), (K_REV, 0, 0), (K_MODE, 0, A_WRONGKEY), (K_UP, 0, 1), (K_SETTLE, 0, 0), (K_KILL, 0, 0), (K_MODE, 0, A_ACCEPT), (K_START, 0, 0),
+                              (K_SETTLE, 0, 0), (K_REV, 1, 0), (K_SLEEP, 2500, 0), (K_SETTLE, 0, 0)]));
+    v.push(fam(23, 2, o, vec![(K_REG, 0, R_GOOD), (K_REG, 1, R_GOOD), (K_UP, 0, 0), (K_REV, 0, 0), (K_REV, 1, 0), (K_MODE, 0, A_WRONGKEY), (K_UP, 0, 1), (K_SETTLE, 0, 0), (K_MODE, 0, A_ACCEPT),
+                              (K_KILL, 0, 0), (K_START, 0, 0), (K_SLEEP, 2500, 0), (K_SETTLE, 0, 0), (K_KILL, 0, 0), (K_START, 0, 0), (K_REV, 2, 0), (K_SETTLE, 0, 0)]));
+    // 24: the renewal of the subscription is refused for good (not extending / badly signed): the retrier fails and is dropped; later
+    //     the tower is healthy again and the user retries: accepted, and everything pending is delivered
+    for cls in [R_NOTEXT, R_BADSIG] {
+        v.push(fam(24, 1, (2, 2, 1), vec![(K_REG, 0, R_GOOD), (K_MODE, 0, A_SUBERR), (K_MODE, 0, 100 + cls), (K_REV, 0, 0), (K_SETTLE, 0, 0), (K_SLEEP, 1500, 0), (K_MODE, 0, A_ACCEPT),
+                                          (K_MODE, 0, 100 + R_GOOD), (K_RETRY, 0, 0), (K_SLEEP, 11500, 0), (K_SETTLE, 0, 0)]));
+    }
+    //     ... or a NEW revocation arrives instead: it must end delivered (the older pending one is left behind by the plugin: known finding)
+    v.push(fam(24, 1, (2, 2, 1), vec![(K_REG, 0, R_GOOD), (K_MODE, 0, A_SUBERR), (K_MODE, 0, 100 + R_NOTEXT), (K_REV, 0, 0), (K_SETTLE, 0, 0), (K_SLEEP, 1500, 0), (K_MODE, 0, A_ACCEPT),
+                                      (K_MODE, 0, 100 + R_GOOD), (K_REV, 1, 0), (K_SLEEP, 11500, 0), (K_SETTLE, 0, 0)]));
+    // 25: subscription error while the renewal endpoint fails transiently for longer than the retry time: the retrier gives up, the tower
+    //     is shown unreachable (idle retrier), retrytower is accepted; after recovery a manual retry delivers
+    for cls in [R_GARBAGE, R_APIERR] {
+        v.push(fam(25, 1, o, vec![(K_REG, 0, R_GOOD), (K_SETTLE, 0, 0), (K_MODE, 0, A_SUBERR), (K_MODE, 0, 100 + cls), (K_REV, 0, 0), (K_SLEEP, 9000, 0), (K_SETTLE, 0, 0), (K_RETRY, 0, 0),
+                                  (K_SETTLE, 0, 0), (K_MODE, 0, A_ACCEPT), (K_MODE, 0, 100 + R_GOOD), (K_RETRY, 0, 0), (K_SETTLE, 0, 0)]));
+    }
     v
 }
 
@@ -987,7 +1021,7 @@ fn random_scenario(rng: &mut Rng) -> Scenario {
             57..=71 => steps.push((K_SETTLE, 0, 0)),
             72..=77 => steps.push((K_RETRY, t, 0)),
             78..=81 => steps.push((K_ABANDON, t, 0)),
-            82..=87 => steps.push((K_REG, t, *rng.pick(&[R_GOOD, R_GOOD, R_BADSIG, R_NOTEXT, R_NOTEXT_SLOTS, R_NOTEXT_EXPIRY, R_GARBAGE, R_APIERR]))),
+            82..=87 => steps.push((K_REG, t, *rng.pick(&[R_GOOD, R_GOOD, R_BADSIG, R_NOTEXT, R_NOTEXT_SLOTS, R_NOTEXT_EXPIRY, R_GARBAGE, R_APIERR, R_FOREIGN]))),
             88..=92 => {
                 if rng.chance(1, 2) {
                     // a notification whose handling races with the kill
@@ -1012,21 +1046,40 @@ fn random_scenario(rng: &mut Rng) -> Scenario {
     fam(99, nt, opts, steps)
 }
 
+/// a rough estimate (ms) of how long a scenario takes on the wall clock: used only to start the long ones first
+fn est_cost(sc: &Scenario) -> u64 {
+    let settle = 1000 * (sc.opts.0 + sc.opts.1).max(2);
+    sc.steps
+        .iter()
+        .map(|&(k, a, b)| match k {
+            K_SLEEP => a,
+            K_REVNOWAIT => b,
+            K_SETTLE | K_WAKE => settle,
+            K_KILL | K_START => 1500,
+            _ => 100,
+        })
+        .sum()
+}
+
 async fn run_all(bin: PathBuf, scratch: PathBuf, scs: Vec<Scenario>, out: &mut dyn Write) {
     let par = env_u64("CP_PAR", 16) as usize;
     let sem = Arc::new(tokio::sync::Semaphore::new(par));
-    let mut handles = Vec::new();
-    for (i, sc) in scs.into_iter().enumerate() {
+    // longest first (the output keeps the order of the scenario list)
+    let n = scs.len();
+    let mut order: Vec<(usize, Scenario)> = scs.into_iter().enumerate().collect();
+    order.sort_by_key(|(i, sc)| (std::cmp::Reverse(est_cost(sc)), *i));
+    let mut handles: Vec<Option<tokio::task::JoinHandle<String>>> = (0..n).map(|_| None).collect();
+    for (i, sc) in order {
         let permit = sem.clone().acquire_owned().await.unwrap();
         let bin = bin.clone();
         let scratch = scratch.clone();
-        handles.push(tokio::spawn(async move {
+        handles[i] = Some(tokio::spawn(async move {
             let s = run_scenario(i, bin, scratch, sc).await;
             drop(permit);
             s
         }));
     }
-    for h in handles {
+    for h in handles.into_iter().flatten() {
         match h.await {
             Ok(s) => writeln!(out, "{s}").unwrap(),
             Err(e) => writeln!(out, "CPPANIC {e}").unwrap(),
